@@ -206,6 +206,41 @@ class Arity:
             return self.reversed_chain(b, t["args"][0], depth + 1)
         return None
 
+    def iter_chain(self, b, op, depth=0):
+        """the calls an iterator / collection operand went through, outermost first, and the local (or None) it starts from:
+        ([call paths], root local or None).  Follows plain moves, references and the first argument of each call."""
+        paths = []
+        cur = op
+        for _ in range(24):
+            if cur is None or cur.get("k") not in ("copy", "move"):
+                return paths, None
+            l = cur["p"][0]
+            if 1 <= l <= b.argc:
+                return paths, l
+            try:
+                d = self._def(b, l)
+            except Und:
+                return paths, l
+            if d[0] == "assign":
+                rv = d[1]["rv"]
+                if rv["k"] == "use":
+                    cur = rv["op"]
+                    continue
+                if rv["k"] == "ref":
+                    cur = {"k": "copy", "p": rv["p"]}
+                    if len(rv["p"]) > 1 and any(e not in ("*",) for e in rv["p"][1:]):
+                        return paths, l          # a field of something: the chain starts here
+                    continue
+                return paths, l
+            t = d[1]
+            f = t["fn"]
+            path = norm(f.get("path")) if f["k"] == "def" else None
+            if path is None or not t["args"]:
+                return paths, l
+            paths.append(path)
+            cur = t["args"][0]
+        return paths, None
+
     def loop_driver_operand(self, b, bb):
         """the iterator a `for` loop around bb runs over (None when bb is not in a recognisable loop)"""
         if not b.in_cycle(bb):
